@@ -332,6 +332,7 @@ class BackupNode(Entity):
         self._replications_applied = 0
         self._backup_reads = 0
         self._last_applied_seq = 0
+        self._applied_seq_by_key: dict[str, int] = {}
 
     def downstream_entities(self) -> list[Entity]:
         return [self._primary]
@@ -375,11 +376,19 @@ class BackupNode(Entity):
         seq = metadata.get("seq", 0)
         ack_future: SimFuture | None = metadata.get("ack_future")
 
-        # Apply locally
-        yield from self._store.put(key, value)
-
-        self._replications_applied += 1
-        self._last_applied_seq = seq
+        # Apply locally, unless a newer write to this key has already been applied
+        # (replication messages can be reordered in flight). The per-key seq is
+        # recorded before the store write suspends so that a stale message
+        # arriving meanwhile is recognised as stale.
+        if seq > self._applied_seq_by_key.get(key, -1):
+            self._applied_seq_by_key[key] = seq
+            yield from self._store.put(key, value)
+            self._replications_applied += 1
+        else:
+            # Superseded: the newer write may still be in its store write, so
+            # wait as long before acking (an ack means "applied here").
+            yield self._store.write_latency
+        self._last_applied_seq = max(self._last_applied_seq, seq)
 
         # Resolve ack future if present (for SEMI_SYNC/SYNC)
         if ack_future is not None:
